@@ -24,3 +24,117 @@ RULE = ("163 hand-written special cases (stereo centres opening/closing rings in
 def replay_input(d):
     from harness import encfloor
     return encfloor.replay(d)
+
+
+# ---- find_perfect_matching against brute force (bounded stand-in; the BFS without blossom contraction cannot be proved)
+def _brute(graph):
+    n = len(graph)
+
+    def rec(free):
+        if not free:
+            return True
+        a = min(free)
+        for b in graph[a]:
+            if b in free and b != a:
+                if rec(free - {a, b}):
+                    return True
+        return False
+    return rec(frozenset(range(n)))
+
+
+def _check_matching(graph):
+    import sys
+    import selfies  # noqa
+    M = sys.modules['selfies.utils.matching_utils']
+    g = [list(x) for x in graph]
+    try:
+        res = M.find_perfect_matching(g)
+    except Exception as e:
+        return 'raised %r' % (e,)
+    n = len(graph)
+    if res is None:
+        return 'returns None although a perfect matching exists' if _brute(graph) else None
+    if len(res) != n:
+        return 'result has wrong length'
+    for i, j in enumerate(res):
+        if j is None or not (0 <= j < n) or res[j] != i or j not in graph[i] or i == j:
+            return 'result %r is not a perfect matching' % (res,)
+    return None
+
+
+def _graphs(n):
+    import itertools
+    pairs = [(i, j) for i in range(n) for j in range(i + 1, n)]
+    for mask in range(1 << len(pairs)):
+        adj = [[] for _ in range(n)]
+        for k, (i, j) in enumerate(pairs):
+            if mask >> k & 1:
+                adj[i].append(j)
+                adj[j].append(i)
+        yield adj
+
+
+def _mwork(job):
+    n, lo, hi, rot = job
+    import itertools
+    bad, cnt, nt = [], 0, 0
+    for k, g in enumerate(_graphs(n)):
+        if k < lo or k >= hi:
+            continue
+        if any(len(a) > 3 for a in g) and n > 4:
+            pass
+        variants = [g]
+        if rot:
+            variants.append([a[1:] + a[:1] for a in g])
+            variants.append([list(reversed(a)) for a in g])
+        for v in variants:
+            cnt += 1
+            r = _check_matching(v)
+            if r and len(bad) < 2:
+                bad.append({'clause': 'C05:matching', 'detail': r, 'input': {'graph': v},
+                            'features': {'nodes': n}})
+        if _brute(g):
+            nt += 1
+    return cnt, nt, bad
+
+
+KNOWN_GRAPH = [[4, 1], [4, 0, 6], [3, 4], [5, 7, 2], [2, 0, 1], [6, 3], [1, 7, 5], [3, 6]]
+
+_enc_floor = floor
+
+
+def floor(ctx):
+    from harness.par import pmap
+    res = _enc_floor(ctx)
+    jobs = []
+    for n in (2, 4, 6):
+        total = 1 << (n * (n - 1) // 2)
+        step = max(1, total // 32)
+        for lo in range(0, total, step):
+            jobs.append((n, lo, lo + step, True))
+    if ctx.tier == 'thorough':
+        pass
+    mres = pmap(_mwork, jobs)
+    res['evaluations'] += sum(r[0] for r in mres)
+    res['distinct_nontrivial'] += sum(r[1] for r in mres)
+    res['violations'] += [b for r in mres for b in r[2]]
+    res['rule'] += ('; find_perfect_matching vs brute force on ALL labelled graphs with 2, 4, 6 nodes, each with rotated '
+                    'and reversed adjacency lists (exhaustive; the recorded 8-node counterexample is replayed as a '
+                    'known finding)')
+    return res
+
+
+_enc_replay = replay_input
+
+
+def replay_input(d):
+    if 'graph' in d.get('input', {}):
+        r = _check_matching(d['input']['graph'])
+        return r is None, r
+    return _enc_replay(d)
+
+
+def replay_known(ctx, k):
+    if k['id'] == 'C05-matching-odd-cycle':
+        return _check_matching(k['witness']['graph']) is not None
+    return False
